@@ -28,6 +28,16 @@ CLAIMED = {
              "Greedy over-reporting by less than one alignment unit is accepted (documented oracle decision).",
         technique="dynamic symbolic execution of the real Python functions over z3 proxies (symx), bounded; inductive step lemmas; counterexample replay",
         design="DESIGN.md §3 C05"),
+    "C17": dict(
+        text="Bounded solver verdict on the real driver-payload code: create_driver_payload is executed with a stream of SYMBOLIC length "
+             "n in [0, 2^25] for each of the 6 accelerators, so one query family covers every length: COP1 tag, config action, config and "
+             "id words against an independent product table, NOP padding to a 16-byte boundary, declared 24-bit length == n, total size, "
+             "and VelaError exactly for n >= 2^24; plus word identity/little-endian order for symbolic 32-bit words (n <= 4) and the "
+             "public npu_create_driver_payload entry.",
+        note="Trusted: z3, symx proxies, the struct.pack('<nI') model used in symbolic mode (replay uses the real struct), the product table "
+             "(MACs/SHRAM per accelerator) restated from public Ethos-U data. Outside: command_stream tensors inside written files.",
+        technique="dynamic symbolic execution of the real Python functions over z3 proxies (symx), symbolic stream length; counterexample replay",
+        design="DESIGN.md §3 C17"),
 }
 
 NOT_APPLICABLE = {
